@@ -17,9 +17,11 @@
     key types' [Equal]/[Compare] are parameters of [put]/[get]; the instances
     for UintN / BitsN ([bits_ltb]) and IntN ([signed_ltb]) are given below.
 
-    The value codec is a parameter ([venc]/[vdec]); values are written inline
-    into the leaf cell after the label (values containing references are not
-    modelled). *)
+    The value codec is a parameter: [venc v] is the bits and the references
+    that Marshal(c, value) appends to the leaf cell after the label, [vdec] is
+    Unmarshal(c, &value) on the unread bits and the references of the leaf cell
+    (what it leaves unread is ignored by mapInner, so only the value is
+    returned). *)
 From Coq Require Import List NArith Arith Lia Bool.
 From Tongo Require Import Lib.Bits Lib.Res Spec.Dict.
 Import ListNotations.
@@ -56,8 +58,8 @@ Definition enc_label_go (m : nat) (lbl : bits) : bits :=
 
 Section Codec.
 Variable V : Type.
-Variable venc : V -> bits.
-Variable vdec : bits -> option (V * bits).
+Variable venc : V -> bits * list cell.
+Variable vdec : bits -> list cell -> option V.
 
 (** ** encodeMap *)
 
@@ -87,7 +89,7 @@ Fixpoint encode_map (fuel : nat) (n : nat) (kvs : list (bits * V)) : res cell :=
       | [] => Err EOther                                 (* "keys or values are empty" *)
       | [(k, v)] =>
           (* keyFirst == keyLast (same pointer): label = whole key; then the value *)
-          mk_cell (enc_label_go n k ++ venc v) []
+          mk_cell (enc_label_go n k ++ fst (venc v)) (snd (venc v))
       | (k0, v0) :: _ :: _ =>
           do lbl <- lcp_go k0 (fst (last kvs (k0, v0)));
           let n' := (n - length lbl - 1)%nat in
@@ -167,8 +169,8 @@ Definition load_label_size (m : nat) (c : bits) : res (N * bits) :=
   end.
 
 (** ** mapInner *)
-Definition vdec_res (l : bits) : res (V * bits) :=
-  match vdec l with Some r => Ok r | None => Err EOther end.
+Definition vdec_res (l : bits) (rs : list cell) : res V :=
+  match vdec l rs with Some v => Ok v | None => Err EOther end.
 
 Fixpoint map_inner (n left : nat) (c : cell) (prefix : bits) : res (list (bits * V)) :=
   match c with
@@ -190,8 +192,8 @@ Fixpoint map_inner (n left : nat) (c : cell) (prefix : bits) : res (list (bits *
             end
         end
       else
-        do vr <- vdec_res rest;
-        Ok [(firstn n prefix', fst vr)]                   (* keyPrefix.ReadBits(keySize) *)
+        do v <- vdec_res rest refs;
+        Ok [(firstn n prefix', v)]                        (* keyPrefix.ReadBits(keySize) *)
   end.
 
 (* Hashmap.UnmarshalTLB *)
@@ -260,6 +262,11 @@ Arguments decode_e {V}. Arguments vdec_res {V}.
 
 (** a one-bit value codec, used to instantiate the theorems on concrete
     dictionaries (Examples and refutation witnesses) *)
-Definition venc_bit (b : bool) : bits := [b].
-Definition vdec_bit (l : bits) : option (bool * bits) :=
-  match l with [] => None | b :: r => Some (b, r) end.
+Definition venc_bit (b : bool) : bits * list cell := ([b], []).
+Definition vdec_bit (l : bits) (_ : list cell) : option bool :=
+  match l with [] => None | b :: _ => Some b end.
+
+(** tlb.Any: the value is the rest of the cell, bits and references *)
+Definition venc_any (c : cell) : bits * list cell :=
+  match c with Cell b rs => (b, rs) end.
+Definition vdec_any (l : bits) (rs : list cell) : option cell := Some (Cell l rs).
